@@ -29,6 +29,8 @@ func emitRest(dir string, t *Tables) {
 	emitCreate(dir, thePkg)
 	emitClBuild(dir, thePkg)
 	emitReader(dir, thePkg)
+	emitWriteLine(dir, thePkg)
+	emitValidate(dir, thePkg)
 	emitEffects(dir, thePkg)
 	emitSchema(dir, thePkg, theRepo)
 	emitRules(dir, t)
